@@ -11,6 +11,9 @@
 //   uvec r <k> <t..> <dimunit|-> <mode> <m> <s1 e1 u1 ..>               the same on a RangeDimension
 //   upos s <dt> <off|-> <dimunit|-> <p> <unit> <rule> | upos r <k> <t..> <dimunit|-> <p> <unit> <rule>   the scalar overload with a unit
 //   stale <k> <t..> <k2> <t2..> <p> <rule>     a handle that has already converted positions must follow a tick change made through another handle
+//   s1 <dt> <off|-> <p> | s2 <dt> <off|-> <s> <e> | svec2 <dt> <off|-> <m> <s e>* [surplus e]     deprecated sampled overloads
+//   setvec <n> <mode> <m> <s e>* | dfvec <n> <mode> <m> <s e>* | rvec <k> <t..> <mode> <m> <s e>* | rvecb <k> <t..> <strict> <mode> <m> <s e>*
+//   r1 <k> <t..> <p> <le 0|1> | r2 <k> <t..> <s> <e> | pinr <k> <t..> <p>
 //   saxis <dt> <off|-> <count> <start> | raxis <k> <t..> <count> <start> | tickat <k> <t..> <i>    axis()/tickAt()
 // rules: L LE GE G EQ
 #include "common.hpp"
@@ -115,6 +118,63 @@ static std::string handle(const std::vector<std::string> &t) {
         auto r = sd.indexOf(s, e, rmode(t[3]));
         std::string out = std::to_string(r.size());
         for (auto &x : r) out += " [" + showp(x) + "]";
+        return out;
+    }
+    // ---- the remaining routes: deprecated overloads (bare index / pair, OutOfBounds instead of none), vector overloads
+    if (c == "s1") { set_sampled(t[1], t[2]); return enc_u64(sd.indexOf(dec_dbl(t[3]))); }
+    if (c == "s2") { set_sampled(t[1], t[2]); auto r = sd.indexOf(dec_dbl(t[3]), dec_dbl(t[4])); return enc_u64(r.first) + " " + enc_u64(r.second); }
+    if (c == "svec2" || c == "setvec" || c == "dfvec") {     // <axis args> <mode> <m> <s e>*   (svec2: no mode, deprecated)
+        size_t at;
+        if (c == "svec2") { set_sampled(t[1], t[2]); at = 3; }
+        else if (c == "setvec") { set_labels(dec_int(t[1])); at = 2; }
+        else { set_rows(dec_int(t[1])); at = 2; }
+        std::string mode = c == "svec2" ? "incl" : t[at++];
+        size_t m = static_cast<size_t>(dec_int(t[at]));
+        std::vector<double> s, e;
+        for (size_t i = 0; i < m; i++) { s.push_back(dec_dbl(t[at + 1 + 2 * i])); e.push_back(dec_dbl(t[at + 2 + 2 * i])); }
+        if (t.size() > at + 1 + 2 * m) e.push_back(dec_dbl(t[at + 1 + 2 * m]));      // one surplus end position: sizes differ
+        std::string out;
+        if (c == "svec2") {
+            auto r = sd.indexOf(s, e);
+            out = std::to_string(r.size());
+            for (auto &x : r) out += " [" + enc_u64(x.first) + " " + enc_u64(x.second) + "]";
+        } else {
+            auto r = c == "setvec" ? setd.indexOf(s, e, rmode(mode)) : dfd.indexOf(s, e, rmode(mode));
+            out = std::to_string(r.size());
+            for (auto &x : r) out += " [" + showp(x) + "]";
+        }
+        return out;
+    }
+    if (c == "rvec" || c == "rvecb" || c == "r1" || c == "r2" || c == "pinr") {
+        size_t k = static_cast<size_t>(dec_int(t[1]));
+        std::vector<double> ticks;
+        for (size_t i = 0; i < k; i++) ticks.push_back(dec_dbl(t[2 + i]));
+        set_ticks(ticks);
+        size_t at = 2 + k;
+        if (c == "r1") return enc_u64(rd.indexOf(dec_dbl(t[at]), t[at + 1] == "1"));
+        if (c == "r2") { auto r = rd.indexOf(dec_dbl(t[at]), dec_dbl(t[at + 1])); return enc_u64(r.first) + " " + enc_u64(r.second); }
+        if (c == "pinr") {
+            nix::PositionInRange r = rd.positionInRange(dec_dbl(t[at]));
+            return r == nix::PositionInRange::InRange ? "inrange" : r == nix::PositionInRange::Greater ? "greater"
+                 : r == nix::PositionInRange::Less ? "less" : "norange";
+        }
+        bool strict = false;
+        if (c == "rvecb") strict = t[at++] == "1";
+        nix::RangeMatch rm = rmode(t[at]);
+        size_t m = static_cast<size_t>(dec_int(t[at + 1]));
+        std::vector<double> s, e;
+        for (size_t i = 0; i < m; i++) { s.push_back(dec_dbl(t[at + 2 + 2 * i])); e.push_back(dec_dbl(t[at + 3 + 2 * i])); }
+        if (t.size() > at + 2 + 2 * m) e.push_back(dec_dbl(t[at + 2 + 2 * m]));
+        std::string out;
+        if (c == "rvec") {
+            auto r = rd.indexOf(s, e, rm);
+            out = std::to_string(r.size());
+            for (auto &x : r) out += " [" + showp(x) + "]";
+        } else {
+            auto r = rd.indexOf(s, e, strict, rm);
+            out = std::to_string(r.size());
+            for (auto &x : r) out += " [" + enc_u64(x.first) + " " + enc_u64(x.second) + "]";
+        }
         return out;
     }
     if (c == "saxis") {        // saxis <dt> <off|-> <count> <start>
